@@ -1272,9 +1272,69 @@ def gen_alr(rng):
     return cfg
 
 
+
+# ---------------------------------------------------------------------------------------------
+# I. ParzenWindowClassifier with its own kernels on real features (oracle only: rbf values are not dyadic). Bandwidths given as
+#    numbers, left to the default, or resolved from the data (`gamma='mean'`; seed R9C11), through the classifier itself and
+#    through a SlidingWindowClassifier.
+
+def case_pwc_real(ctx, lines, expect, cfg):
+    from skactiveml.classifier import ParzenWindowClassifier, SlidingWindowClassifier
+
+    lab, y, w, classes, cost = materialize(cfg)
+    ntr = len(y)
+    Xtr = np.array(cfg["Xtr"], dtype=float).reshape(ntr, -1) if ntr else np.zeros((0, 2))
+    Xq = np.array(cfg["Xq"], dtype=float)
+    n = len(Xq)
+    md = cfg["metric_dict"]
+    clf = ParzenWindowClassifier(metric="rbf", metric_dict=None if md is None else dict(md), n_neighbors=cfg.get("n_neighbors"),
+                                 classes=classes, missing_label=lab.missing, cost_matrix=cost, class_prior=cfg["prior"], random_state=0)
+    name = "ParzenWindowClassifier"
+    if cfg.get("sliding"):
+        clf = SlidingWindowClassifier(clf, classes=classes, missing_label=lab.missing, cost_matrix=cost, random_state=0)
+        name = "SlidingWindowClassifier"
+    try:
+        clf.fit(Xtr, y, sample_weight=w)
+    except Exception as e:
+        if fit_error_ok(cfg, e):
+            ctx.count("inadmissible_fit_rejected")
+            return
+        viol(ctx, name, "fit", "raises", f"fit raised {type(e).__name__}: {e}", cfg, "rbf-" + str(md))
+        return
+    k = len(clf.classes_)
+    try:
+        P = clf.predict_proba(Xq)
+    except Exception as e:
+        viol(ctx, name, "predict_proba", "raises", f"predict_proba raised {type(e).__name__}: {e}", cfg, "rbf-" + str(md))
+        return
+    ctx.count("kind_pwc_real_" + ("default" if md is None else str(md.get("gamma"))) + ("_sliding" if cfg.get("sliding") else ""))
+    ctx.case(("pwc-real", repr(cfg)), k >= 2 and has_labels(cfg), sample=dict(kind=name + " (rbf)", metric_dict=md, y=y, P=P))
+    ok = oracle_proba(ctx, name, P, n, k, cfg)
+    if ok and not has_labels(cfg) and np.isscalar(cfg["prior"]):
+        oracle_uniform(ctx, name, P, k, cfg)
+        ctx.count("no_labels_uniform_checked")
+    try:
+        y_pred, costs, noise, _, Pu = run_predict(ctx, clf, Xq, cfg["seed"])
+    except Exception as ex:
+        viol(ctx, name, "predict", "raises", f"predict raised {type(ex).__name__}: {ex}", cfg)
+        return
+    if ok:
+        oracle_predict(ctx, name, y_pred, P if Pu is None else Pu, true_cost(cfg, lab, clf.classes_), clf.classes_, cfg)
+
+
+def gen_pwc_real(rng):
+    cfg = gen_common(rng, allow_none_classes=False)
+    ntr = len(cfg["y_idx"])
+    cfg.update(kind="pwc_real", Xtr=[[rng.randint(-4, 4) / 2.0, rng.randint(-4, 4) / 2.0] for _ in range(ntr)],
+               Xq=[[rng.randint(-6, 6) / 2.0, rng.randint(-6, 6) / 2.0] for _ in range(rng.randint(1, 4))],
+               metric_dict=rng.choice([None, {"gamma": "mean"}, {"gamma": "mean"}, {"gamma": 0.5}]),
+               prior=rng.choice([0.0, 0.0, 0.5]), n_neighbors=rng.choice([None, None, 2]),
+               sliding=ntr > 0 and rng.random() < 0.25)   # a window without any row has no feature dimension left: not a training set
+    return cfg
+
 # ---------------------------------------------------------------------------------------------
 
-RUNNERS = dict(freq=case_freq, pwc=case_pwc, mmc=case_mmc, skl=case_skl, swc=case_swc, ens=case_ens, alr=case_alr)
+RUNNERS = dict(freq=case_freq, pwc=case_pwc, pwc_real=case_pwc_real, mmc=case_mmc, skl=case_skl, swc=case_swc, ens=case_ens, alr=case_alr)
 
 
 def run_case(ctx, lines, expect, cfg):
@@ -1328,8 +1388,10 @@ def gen_any(rng):
     r = rng.random()
     if r < 0.14:
         return gen_freq(rng)
-    if r < 0.32:
+    if r < 0.27:
         return gen_pwc(rng)
+    if r < 0.32:
+        return gen_pwc_real(rng)
     if r < 0.42:
         return gen_mmc(rng, real=False)
     if r < 0.47:
